@@ -1,5 +1,6 @@
 import Hgxv.Proofs.C09Forms
 /-! Helper lemmas for C09, part 4: per-order matrices, degree matrix, Laplacian. -/
+set_option linter.unusedSectionVars false
 namespace C09
 variable {R : Type} [CommRing R]
 
@@ -117,11 +118,11 @@ theorem lap_row (d : Nat) (nodes : List Nat) (es : List (Edge × R)) (hN : nodes
   unfold laplacian
   simp only
   rw [gramMatrix_eq d nodes es hN hE, degMatrix_eq]
-  simp [matSub, smul, diag, List.getElem?_zipWith, List.getElem?_zipIdx, hi]
+  simp [matSub, smul, diag, hi]
 
 /-- sum over all nodes `y` of the Gram entries of `x`, unweighted: every hyperedge of order `d` through `x`
 is counted once per member, i.e. `d + 1` times -/
-theorem sum_gram_unweighted (d : Nat) (nodes : List Nat) (es : List (Edge × R)) (hN : nodes.Nodup)
+theorem sum_gram_unweighted (d : Nat) (nodes : List Nat) (es : List (Edge × R))
     (hE : ∀ e ∈ es, ∀ x ∈ e.1, x ∈ nodes) (hD : ∀ e ∈ es, e.1.Nodup) (hW : ∀ e ∈ es, e.2 = 1) (x : Nat) :
     ((classes nodes).map fun y => gram d es x y).sum = ((d + 1 : Nat) : R) * ((degree d es x : Nat) : R) := by
   unfold gram
